@@ -236,7 +236,8 @@ impl Bench {
             if !matches!(id, 1 | 2 | 3 | 4 | 6 | 7 | 9 | 12 | 15 | 18) {
                 return Err(fail("stream/extra-property", format!("unexpected property {} = {:?}", id, v)));
             }
-            if let PVal::LpStr(b) = v {
+            // (the five free-text properties were compared with the model exactly, NUL characters included)
+            if let (PVal::LpStr(b), 7 | 9) = (v, *id) {
                 if b.contains(&0) {
                     return Err(fail("stream/embedded-nul", format!("property {} contains an embedded NUL", id)));
                 }
@@ -359,6 +360,9 @@ fn template_orders(rep: &mut Report) {
         vec![SumOp::SetWordCount(i32::MIN), SumOp::SetWordCount(i32::MAX), SumOp::ClearWordCount, SumOp::SetWordCount(0)],
         vec![SumOp::SetCreationTime(0), SumOp::SetCreationTime(T1601_NS), SumOp::ClearCreationTime, SumOp::SetCreationTime(1_500_000_000_123_456_700)],
         vec![SumOp::ClearTitle, SumOp::ClearSubject, SumOp::ClearAuthor, SumOp::ClearComments, SumOp::ClearCreatingApp, SumOp::ClearUuid, SumOp::ClearWordCount, SumOp::ClearCreationTime],
+        // strings with embedded / trailing NUL characters
+        vec![SumOp::SetTitle("ACME\0Corp".into()), SumOp::SetAuthor("\0".into()), SumOp::SetComments("tail\0".into()), SumOp::SetSubject("a\0\0b".into()), SumOp::SetWordCount(2)],
+        vec![SumOp::SetCodepage(1252), SumOp::SetTitle("é\0é".into()), SumOp::SetComments("x\0".into()), SumOp::SetCreationTime(1_500_000_000_123_456_700)],
         // strings whose encoded form starts like a byte-order mark
         vec![SumOp::SetTitle("\u{feff}Title".into()), SumOp::SetComments("\u{feff}".into()), SumOp::SetAuthor("a\u{feff}b".into())],
         vec![SumOp::SetCodepage(1252), SumOp::SetTitle("ÿþAb".into()), SumOp::SetSubject("þÿAb".into()), SumOp::SetComments("ï»¿café".into()), SumOp::SetAuthor("ÿþ".into())],
